@@ -96,7 +96,7 @@ var c07BoundsReasons = map[string]struct {
 	"css/validation.expandGridColumnRowArea": {4, "validations is appended once per element of gridLines, whose length is tested to be >= 1 before; validations[1] is read under lines > 1 or after the append that duplicates entry 0"},
 	"css/validation.getTarget":               {2, "the separator argument is read only for target-counters, admitted with 3 or 4 arguments: two are left after the first reslice (decided per name and count by rule C07.R12)"},
 	"css/validation.gridTemplateAreas":       {1, "tokens is non-empty (validator precondition, C07.R5) and every iteration either returns nil or appends a row, so gridAreas has at least one row here"},
-	"html/tree.resolveVar":                   {2, "reached only after validation.HasVar(token) returned true, which for a var() block requires a first argument (rule C07.R3 checks that dependency)"},
+	"html/tree.resolveVar":                   {1, "reached only after validation.HasVar(token) returned true, which for a var() block requires a first argument (rule C07.R3 checks that dependency)"},
 	"svg.(*pathParser).addArcFromA":          {1, "called from addSeg under hasSetsOrMore(7, …) with 7-element chunks of c.points"},
 	"svg.(*pathParser).addSeg":               {17, "every read of c.points[…] is in a case of the command switch that first returned unless hasSetsOrMore(n, …) holds with n at least the largest offset read (arity table checked by rule C18.R1); the field is re-read so the facts do not connect"},
 	"svg.(*pathParser).parsePath":            {2, "segments are data[lastIndex:i] with lastIndex < i (lastIndex is the index of an earlier iteration) and data[lastIndex:] with lastIndex a valid index: never empty"},
